@@ -55,6 +55,25 @@ class Session:
     def cur(self):
         return self.procs[-1]
 
+    def derive_variant(self, name, base, steps):
+        """make a scheduled variant of module procedure `base` available as `name`
+        (recorded in self.prelude so that a case replays it)"""
+        sub = Session(self.mod, base, self.text)
+        done = []
+        for st in steps:
+            r = apply_step(sub, st)
+            if r.status == "accepted":
+                done.append(st)
+        self.extra[name] = sub.cur
+        if not hasattr(self, "prelude"):
+            self.prelude = []
+        self.prelude.append({"name": name, "base": base, "steps": done})
+        return sub.cur
+
+    def apply_prelude(self, prelude):
+        for p in prelude or []:
+            self.derive_variant(p["name"], p["base"], p["steps"])
+
     def module_procs(self):
         out = {}
         for k, v in vars(self.mod).items():
